@@ -4,7 +4,7 @@
 (* prescribed result equals (or, where the property leaves a choice,        *)
 (* contains) the recorded one.  Each property is checked by its own named   *)
 (* Check; all disagreements of a trace are reported in one pass.            *)
-EXTENDS RouterOps, Cors, Json
+EXTENDS Tree, Cors, Json
 
 CONSTANTS File, Props
 Trace == ndJsonDeserialize(File)
@@ -12,8 +12,9 @@ Trace == ndJsonDeserialize(File)
 VARIABLES rt,      \* the router value prescribed by the specification
           prevRt,  \* its value before the last mutating call (C03 frame)
           lastEv,  \* kind of the last mutating call
+          tt,      \* structural model of the tree (Tree.tla), driven in lockstep; only compared for the drift report
           l        \* cursor
-vars == <<rt, prevRt, lastEv, l>>
+vars == <<rt, prevRt, lastEv, tt, l>>
 Ev == Trace[l]
 
 Check(id, cond, info) ==
@@ -40,11 +41,12 @@ ReOK(I, atoms)    == \A j \in ParamIdx(atoms) : KindOf(I, atoms[j]) = 2 => Ev.re
 OddName(I, atoms) == \E j \in ParamIdx(atoms) : KindOf(I, atoms[j]) = 2 /\ ~atoms[j].ig
                         /\ (atoms[j].name = "" \/ ~AllIn(atoms[j].name, Word \cup {"_"}) \/ Ch(atoms[j].name, 1) \in Digits)
 
-Init == rt = Blank /\ prevRt = Blank /\ lastEv = "reset" /\ l = 1
+Untracked == Leaf("?", {})
+Init == rt = Blank /\ prevRt = Blank /\ lastEv = "reset" /\ tt = Root /\ l = 1
 
 TrReset ==
   /\ Ev.ev = "reset"
-  /\ rt' = NewRouter(CfgOf(Ev.cfg)) /\ prevRt' = NewRouter(CfgOf(Ev.cfg)) /\ lastEv' = "reset"
+  /\ rt' = NewRouter(CfgOf(Ev.cfg)) /\ prevRt' = NewRouter(CfgOf(Ev.cfg)) /\ lastEv' = "reset" /\ tt' = Root
   /\ Check("C05", Ev.res \in {"ok", "err"}, <<"NewRouter", Ev.res>>)
   /\ Check("C11", (Ev.cfg.cors.on /\ AnyOrigin(Ev.cfg.cors) /\ Ev.cfg.cors.cred) => Ev.res = "err", <<"origin * with credentials accepted">>)
   /\ Check("C12", (Ev.res = "err") = ConfigBad(Ev.cfg.cors), <<"configuration verdict", Ev.cfg.cors, Ev.res>>)
@@ -84,17 +86,20 @@ TrHandle ==
         /\ Check("C09", ~Ev.clobber, <<"the call wrote into the caller's middleware slice", pat>>)
         /\ rt' = IF Ev.res = "ok" THEN DoHandle(rt, pat, Ev.h, mws, Ev.methods) ELSE rt
         /\ prevRt' = rt /\ lastEv' = "handle"
+        /\ tt' = IF Ev.res # "ok" THEN tt
+                 ELSE IF tt.v = "?" \/ P.err # "" THEN Untracked
+                 ELSE TreeAdd(rt.cfg.icpt, tt, pat, ToSet(EffMethods(Ev.methods)))
 
 \* creating a Prefix / Resource object changes nothing; later calls through it are desugared with its chain
 TrFacade ==
-  /\ Ev.ev = "facade" /\ UNCHANGED <<rt, prevRt, lastEv>>
+  /\ Ev.ev = "facade" /\ UNCHANGED <<rt, prevRt, lastEv, tt>>
   /\ Check("C05", Ev.res = "ok", <<"facade constructor panicked">>)
   /\ Check("C19", ~Ev.clobber, <<"the constructor wrote into the caller's middleware slice">>)
 
 \* accessors outside the listed properties (growth): the method lists are copies of the documented sets, Name() is the
 \* configured name, a facade's Pattern() is the concatenated prefix and it belongs to the router that made it
 TrMisc ==
-  /\ Ev.ev = "misc" /\ UNCHANGED <<rt, prevRt, lastEv>>
+  /\ Ev.ev = "misc" /\ UNCHANGED <<rt, prevRt, lastEv, tt>>
   /\ Check("C05", Ev.res = "ok", <<"accessor panicked">>)
   /\ Check("C08", ToSet(Ev.methods) = Supported /\ Len(Ev.methods) = Cardinality(Supported) /\ Ev.any = AnyMethods, <<"Methods() / AnyMethods()", Ev.methods, Ev.any>>)
   /\ Check("C13", Ev.name = rt.cfg.name, <<"Router.Name()", Ev.name>>)
@@ -107,6 +112,7 @@ TrRemove ==
   /\ Check("C05", Ev.res = "ok", <<"Remove panicked", FullPat, Ev.res>>)
   /\ Check("C19", "mres" \in DOMAIN Ev => Ev.mres = Ev.res, <<"facade remove", FullPat>>)
   /\ rt' = DoRemove(rt, FullPat, Ev.methods) /\ prevRt' = rt /\ lastEv' = "remove"
+  /\ tt' = IF tt.v = "?" THEN tt ELSE TreeRemove(tt, FullPat, Ev.methods)
 
 TrClean ==
   /\ Ev.ev = "clean"
@@ -116,6 +122,7 @@ TrClean ==
   /\ LET pat == ChainPat(Ev.chain, 1)
      IN rt' = IF Ev.isres THEN DoRemove(rt, pat, <<>>) ELSE DoClean(rt, pat)
   /\ prevRt' = rt /\ lastEv' = "clean"
+  /\ tt' = IF tt.v = "?" THEN tt ELSE IF Ev.isres THEN TreeRemove(tt, ChainPat(Ev.chain, 1), <<>>) ELSE TreeClean(tt, ChainPat(Ev.chain, 1))
 
 ExpWrapsUse(mws) ==
   LET nm == rt.cfg.name
@@ -142,13 +149,13 @@ TrUse ==
   /\ Check("C09", /\ BagLeq(BagOf(ExpWrapsUse(Ev.mws)), BagOf(Ev.wraps))
                   /\ BagLeq(BagOf(Ev.wraps), BagOf(ExpWrapsUse(Ev.mws) \o OptWrapsUse(Ev.mws))),
            <<"factory invocations of Use", Ev.wraps, ExpWrapsUse(Ev.mws)>>)
-  /\ rt' = DoUse(rt, Ev.mws) /\ prevRt' = rt /\ lastEv' = "use"
+  /\ rt' = DoUse(rt, Ev.mws) /\ prevRt' = rt /\ lastEv' = "use" /\ UNCHANGED tt
 
 \* ------------------------------------------------------------------ observers
 RoutesOK(val) == /\ DOMAIN val \ {"*"} = Live(rt)
                  /\ \A p \in Live(rt) : ToSet(val[p]) = AllowSet(rt, p)
 TrRoutes ==
-  /\ Ev.ev = "routes" /\ UNCHANGED <<rt, prevRt, lastEv>>
+  /\ Ev.ev = "routes" /\ UNCHANGED <<rt, prevRt, lastEv, tt>>
   /\ Check("C05", Ev.res = "ok", <<"Routes panicked">>)
   /\ Check("C03", Ev.res = "ok" => RoutesOK(Ev.val), <<"routes", Ev.val, "live", SetSeq(Live(rt))>>)
   /\ Check("C04", Ev.res = "ok" => (\A p \in Live(rt) \cap DOMAIN Ev.val : ToSet(Ev.val[p]) = AllowSet(rt, p)),
@@ -224,7 +231,7 @@ ServeGeneral ==
                 <<"frame", Ev.method, Ev.path, "before", b.kind, b.pat, b.params, "after", R.kind, R.pat, R.params>>)
 
 TrServe ==
-  /\ Ev.ev = "serve" /\ UNCHANGED <<rt, prevRt, lastEv>>
+  /\ Ev.ev = "serve" /\ UNCHANGED <<rt, prevRt, lastEv, tt>>
   /\ Check("C05", R.panic = "none", <<"panic", Ev.method, Ev.path, R.panic>>)
   /\ Check("C03", (~rt.addOnly) => R.panic = "none", <<"panic after removal", Ev.method, Ev.path, R.panic>>)
   /\ Check("C19", Ev.hasMirror => Ev.mirror = R, <<"facade dispatch", Ev.method, Ev.path, R, Ev.mirror>>)
@@ -239,7 +246,7 @@ TrServe ==
 
 \* ------------------------------------------------------------------ URL / CheckSyntax
 TrURL ==
-  /\ Ev.ev = "url" /\ UNCHANGED <<rt, prevRt, lastEv>>
+  /\ Ev.ev = "url" /\ UNCHANGED <<rt, prevRt, lastEv, tt>>
   /\ LET pat == FullPat
          R0  == IF Ev.via = "mux" THEN [rt EXCEPT !.cfg.domain = ""] ELSE rt
          P   == PParse(pat)
@@ -255,7 +262,7 @@ TrURL ==
         /\ Check("C19", Ev.hasMirror => (Ev.mok = Ev.ok /\ Ev.mval = Ev.val /\ Ev.mres = Ev.res), <<"facade url", pat, Ev.val, Ev.mval>>)
 
 TrSyntax ==
-  /\ Ev.ev = "syntax" /\ UNCHANGED <<rt, prevRt, lastEv>>
+  /\ Ev.ev = "syntax" /\ UNCHANGED <<rt, prevRt, lastEv, tt>>
   /\ LET P == PParse(Ev.pat)
          known == ReKnown(<<>>, P.atoms) /\ ~OddName(<<>>, P.atoms)
      IN /\ Check("C05", Ev.res = "ok", <<"CheckSyntax panicked", Ev.pat>>)
@@ -266,7 +273,7 @@ TrSyntax ==
 
 \* C18: the bundled Trace helper replies 200, Content-Type message/http actually SENT, body = escaped dump
 TrTraceHelper ==
-  /\ Ev.ev = "tracehelper" /\ UNCHANGED <<rt, prevRt, lastEv>>
+  /\ Ev.ev = "tracehelper" /\ UNCHANGED <<rt, prevRt, lastEv, tt>>
   /\ Check("C05", Ev.res = "ok", <<"Trace helper panicked">>)
   /\ Check("C18", (Ev.res = "ok" /\ Ev.dumpok) => (Ev.status = 200 /\ Ev.ct = "message/http" /\ Ev.out = HtmlEscape(Ev.dump)),
            <<"trace helper", Ev.status, Ev.ct, Ev.out, Ev.dump>>)
@@ -274,7 +281,7 @@ TrTraceHelper ==
 \* C11 / C12: one request with CORS request headers; response headers as sent
 HdrOf(h, k) == IF k \in DOMAIN h THEN h[k] ELSE ""
 TrReq ==
-  /\ Ev.ev = "req" /\ UNCHANGED <<rt, prevRt, lastEv>>
+  /\ Ev.ev = "req" /\ UNCHANGED <<rt, prevRt, lastEv, tt>>
   /\ LET q  == [method |-> Ev.method, path |-> Ev.path, origin |-> HdrOf(Ev.hdr, "Origin"),
                 acrm |-> HdrOf(Ev.hdr, "Access-Control-Request-Method"), acrh |-> HdrOf(Ev.hdr, "Access-Control-Request-Headers")]
          O  == ServeOutcomes(rt, Ev.method, Ev.path)
@@ -285,10 +292,19 @@ TrReq ==
         /\ Check("C11", C11_NoMore(c, q, sv /\ R.kind \notin {"404", "405"}, al, Ev.resp), <<"grants more than configured", c, q, R.kind, Ev.resp>>)
         /\ Check("C12", C12_Exact(c, q, sv, al, Ev.resp), <<"not exactly as configured", c, q, R.kind, Ev.resp>>)
 
+\* structural refinement, drift report: the shape of the REAL tree against Tree.tla driven by the same calls.
+\* A difference is reported as TREE-DRIFT (a refactoring may legitimately change the shape), never as a verdict.
+RECURSIVE SameShape2(_, _)
+SameShape2(m, r) == /\ m.v = r.v /\ m.ms = ToSet(r.ms) /\ Len(m.ch) = Len(r.ch)
+                    /\ \A i \in 1..Len(m.ch) : SameShape2(m.ch[i], r.ch[i])
+TrDump ==
+  /\ Ev.ev = "dump" /\ UNCHANGED <<rt, prevRt, lastEv, tt>>
+  /\ IF tt.v = "?" \/ SameShape2(tt, Ev.tree) THEN TRUE ELSE PrintT("TREE-DRIFT " \o ToJson([line |-> l, model |-> tt, real |-> Ev.tree]))
+
 TraceNext ==
   /\ l <= Len(Trace)
   /\ l' = l + 1
-  /\ (TrReset \/ TrFacade \/ TrMisc \/ TrHandle \/ TrRemove \/ TrClean \/ TrUse \/ TrRoutes \/ TrServe \/ TrURL \/ TrSyntax \/ TrTraceHelper \/ TrReq)
+  /\ (TrReset \/ TrFacade \/ TrMisc \/ TrHandle \/ TrRemove \/ TrClean \/ TrUse \/ TrRoutes \/ TrServe \/ TrURL \/ TrSyntax \/ TrTraceHelper \/ TrReq \/ TrDump)
   /\ (l' > Len(Trace) => PrintT("TRACE-END " \o ToString(Len(Trace))))
 
 Spec == Init /\ [][TraceNext]_vars
